@@ -506,3 +506,6 @@ def tasks_rule(eng: Engine, ck: Check):
     from . import defs as _d16
     _d16.presence_truthiness(eng, ck, 'R-C16-ADVERT', [('Session', 'session.py'), ('BackgroundTask', 'tasks.py')], 'handlers test `if self._session` / `if not self._session` to decide whether there is a logged-in user')
     _d16.enum_members_distinct(eng, ck, 'R-C16-RECONNECT', [('CloseReason', 'network/connection.py'), ('ConnectionState', 'network/connection.py')], 'the reconnect decision distinguishes requested / EOF / lost')
+    from .c10 import opened_stream_rule
+    opened_stream_rule(eng, ck, 'R-C16-TASKS', 'after stop() returns no connection is open: a connect that a disconnect overtook must not keep its socket')
+    _d16.listener_never_awaits_deliverer(eng, ck, 'R-C16-DESTROY', 'the session is destroyed and the server-derived state cleared by listeners of the CLOSED report: each of them has to be reached, whichever task closes the connection')
